@@ -398,6 +398,16 @@ pub fn write_group_key_map(entries: &[(u16, u16)]) -> Vec<u8> {
     })
 }
 
+/// GroupKeyManagement::KeySetRemove
+pub fn key_set_remove(key_set_id: u16) -> Vec<u8> {
+    invoke_with(CL_GRP_KEY, 3, false, |tw| tw.u16(&TLVTag::Context(0), key_set_id).unwrap())
+}
+
+/// Groups::RemoveAllGroups on endpoint 0
+pub fn remove_all_groups() -> Vec<u8> {
+    invoke_with(CL_GROUPS, 4, false, |_| {})
+}
+
 /// Groups::AddGroup on endpoint 0
 pub fn add_group(group_id: u16, name: &str) -> Vec<u8> {
     invoke_with(CL_GROUPS, 0, false, |tw| {
